@@ -2,7 +2,10 @@
 """Regenerates MANIFEST.json from checks.json (+ notes in tools/na.json)."""
 import json, os
 V = os.path.dirname(os.path.dirname(os.path.abspath(__file__)))
-cfg = json.load(open(os.path.join(V, "checks.json")))
+import sys
+sys.path.insert(0, os.path.join(V, "tools"))
+from cfgload import load_cfg
+cfg = load_cfg()
 na = json.load(open(os.path.join(V, "tools", "na.json")))
 props = [json.loads(l) for l in open(os.path.join(V, "properties.jsonl"))]
 checks = []
